@@ -10,7 +10,7 @@
 
 namespace mc {
 
-struct Leaf { double prob; Hist hist; std::string canon; uint64_t draws; /* total draws consumed along hist */ };
+struct Leaf { double prob; Hist hist; std::string canon; uint64_t draws, draws_min, draws_max; /* total draws consumed along the histories merged into this leaf */ };
 
 template<class Sys>
 struct ProbTree {
@@ -29,7 +29,7 @@ struct ProbTree {
   std::unique_ptr<State> replay(const Hist& h, Ctx* last_ctx, Tape* last_tape = nullptr, uint64_t fill = 0x8000000000000000ULL) {
     std::unique_ptr<State> s(sys.make()); replays++;
     for (size_t i = 0; i < h.size(); ++i) {
-      Tape t; t.v = h[i].tape; t.raw_fill = fill;
+      Tape t; t.v = h[i].tape; t.set_fill(fill);
       bool ok;
       try { TapeScope sc(t); ok = sys.apply(*s, h[i].op, i + 1 == h.size() ? last_ctx : nullptr); }
       catch (const std::exception& e) {
@@ -41,7 +41,7 @@ struct ProbTree {
     }
     return s;
   }
-  std::vector<Leaf> root() { std::vector<Leaf> v; Leaf l; l.prob = 1; l.draws = 0; std::unique_ptr<State> s(sys.make()); l.canon = sys.canon(*s); v.push_back(l); return v; }
+  std::vector<Leaf> root() { std::vector<Leaf> v; Leaf l; l.prob = 1; l.draws = l.draws_min = l.draws_max = 0; std::unique_ptr<State> s(sys.make()); l.canon = sys.canon(*s); v.push_back(l); return v; }
 
   // apply `op` to every leaf; every outcome of the op's draws becomes a branch; merged by canon.
   // sys.check is evaluated on every branch (merged state). Returns the new distribution (sorted by canon for determinism).
@@ -67,14 +67,19 @@ struct ProbTree {
         if (outs[k].tape.size() != nd0 && !draws_outcome_dependent) { draws_outcome_dependent = true; h.back().tape = outs[k].tape; draws_witness = hist_str(h); }
         std::string key = outs[k].canon;
         std::map<std::string, Leaf>::iterator f = next.find(key);
-        if (f != next.end()) { f->second.prob += cur[li].prob * outs[k].prob; continue; }
-        Leaf nl; nl.prob = cur[li].prob * outs[k].prob; nl.hist = h; nl.hist.back().tape = outs[k].tape; nl.canon = key; nl.draws = cur[li].draws + outs[k].tape.size();
+        if (f != next.end()) {
+          f->second.prob += cur[li].prob * outs[k].prob;
+          f->second.draws_min = std::min(f->second.draws_min, cur[li].draws_min + outs[k].tape.size());
+          f->second.draws_max = std::max(f->second.draws_max, cur[li].draws_max + outs[k].tape.size());
+          continue;
+        }
+        Leaf nl; nl.prob = cur[li].prob * outs[k].prob; nl.hist = h; nl.hist.back().tape = outs[k].tape; nl.canon = key; nl.draws = cur[li].draws + outs[k].tape.size(); nl.draws_min = cur[li].draws_min + outs[k].tape.size(); nl.draws_max = cur[li].draws_max + outs[k].tape.size();
         // oracle on the new merged state
         std::string hs = hist_str(nl.hist);
         if (journal(sc, hs)) {
           Ctx ctx(rep, sc, hs); int a0 = asan_errors();
           std::unique_ptr<State> s3 = replay(nl.hist, &ctx);
-          sys.check(*s3, ctx);
+          safe_check(sys, *s3, ctx);
           if (asan_errors() != a0) ctx.fail("asan", "AddressSanitizer report during this operation");
           if (key.compare(0, 7, "FAILED:") == 0) ctx.fail("draw-runaway", key);
           rep.flush_ctx_fails(ctx.fails, sc, hs);
